@@ -239,14 +239,14 @@ var mutations counter
 var names = []string{"sec", "secret", "s", "plain", "plain2", "pl", "token", "a", "ab", "SEC"}
 
 func genValue(t *rapid.T) []byte {
-	switch rapid.IntRange(0, 9).Draw(t, "vk") {
-	case 0:
+	switch rapid.IntRange(0, 29).Draw(t, "vk") {
+	case 0, 1:
 		return []byte{}
-	case 1:
+	case 2, 3, 4, 5:
 		return rapid.SliceOfN(rapid.Byte(), 1, 64).Draw(t, "bin")
-	case 2:
+	case 6, 7:
 		return []byte(strings.Repeat(rapid.StringMatching(`[a-z]{1,8}`).Draw(t, "rep"), rapid.IntRange(8, 256).Draw(t, "times")))
-	case 3:
+	case 8:
 		return []byte(rapid.SampledFrom([]string{"a;b", " x ", `"q"`, "a; Path=/evil", "x ", " y"}).Draw(t, "lossy"))
 	default:
 		return []byte(rapid.StringMatching(`[!#-+\--:<-~]{1,40}`).Draw(t, "val"))
@@ -284,7 +284,7 @@ func classify(c Case, fail string) string {
 	return ""
 }
 
-var propCookie = vk.Register(&vk.Prop[Case]{Property: property, Name: "roundtrip", Gen: genCase, Check: check, Classify: classify, Quick: 1500, Thorough: 8000})
+var propCookie = vk.Register(&vk.Prop[Case]{Property: property, Name: "roundtrip", Gen: genCase, Check: check, Classify: classify, Quick: 3000, Thorough: 8000})
 
 func TestRoundTrip(t *testing.T) { propCookie.Run(t) }
 func FuzzRoundTrip(f *testing.F) { propCookie.Fuzz(f) }
